@@ -53,11 +53,19 @@ const (
 	opNestPeer     = 0x21
 	opNestIndirect = 0x22
 	// unbounded recursion: opRec + frame kind
-	opRec      = 0x28 // .. 0x2b
-	nRecKinds  = 4
-	opCallback = 0x40 // | viaTable<<3 | target<<1 | mode   (target 0..2 = instance, 3 = the calling module itself; mode 0 = re-panic, 1 = swallow)
-	opCbMask   = 0xf0
-	opCbTable  = 0x08
+	opRec     = 0x28 // .. 0x2b
+	nRecKinds = 4
+	// atomic instructions (threads feature): the next script byte is the sub-opcode of the
+	// 0xfe-prefixed instruction (0x00 notify .. 0x4e i64.atomic.rmw32.cmpxchg_u). It is executed at
+	// the scratch word (success; loads, stores and read-modify-writes of every width change and
+	// report it), beyond the memory, or at an odd address.
+	opAtomicOK        = 0x2c
+	opAtomicOOB       = 0x2d
+	opAtomicUnaligned = 0x2e
+	nAtomicSubs       = 0x4f
+	opCallback        = 0x40 // | viaTable<<3 | target<<1 | mode   (target 0..2 = instance, 3 = the calling module itself; mode 0 = re-panic, 1 = swallow)
+	opCbMask          = 0xf0
+	opCbTable         = 0x08
 )
 
 var trapText = map[byte]string{
@@ -72,9 +80,10 @@ var trapText = map[byte]string{
 var recNames = []string{"no-locals", "1000-locals", "16-v128-locals", "20-params"}
 
 const (
-	logBase = 64
-	logCap  = 4096
-	zeroAt  = 32 // a memory word that is always zero (operands the compiler cannot fold)
+	scratchAt = 48 // 8 bytes the atomic instructions work on
+	logBase   = 64
+	logCap    = 4096
+	zeroAt    = 32 // a memory word that is always zero (operands the compiler cannot fold)
 )
 
 const (
@@ -108,7 +117,7 @@ func buildGuest(peer string, start int) []byte {
 		peerRun = m.ImportFunc(peer, "run", []byte{e.I64}, []byte{e.I32})
 	}
 	base := m.NumImportedFuncs()
-	fLog, fRun, fRun2, fVoid, fRec0, fRec1000, fRecV, fRec20, fStart := base, base+1, base+2, base+3, base+4, base+5, base+6, base+7, base+8
+	fLog, fRun, fRun2, fVoid, fRec0, fRec1000, fRecV, fRec20, fStart, fAtomic := base, base+1, base+2, base+3, base+4, base+5, base+6, base+7, base+8, base+9
 	if peer == "" {
 		peerRun = fRun
 	}
@@ -233,6 +242,18 @@ func buildGuest(peer string, start int) []byte {
 		when(opNestIndirect, func() {
 			nest(func() { b.LocalGet(lRest).LocalGet(lZero).I32Const(3).Raw(e.OpI32Add).CallIndirect(runType, 0) })
 		})
+		for i, addr := range []int32{scratchAt, 65536, scratchAt + 1} {
+			addr := addr
+			when(byte(opAtomicOK+i), func() {
+				// r = atomic(sub = next script byte, addr); log(lo(r)); log(hi(r)); return cnt
+				b.LocalGet(lRest).Raw(e.OpI32WrapI64).I32Const(0xff).Raw(e.OpI32And)
+				b.LocalGet(lZero).I32Const(addr).Raw(e.OpI32Add)
+				b.Call(fAtomic).LocalSet(lRest)
+				b.LocalGet(lRest).Raw(e.OpI32WrapI64).Call(fLog)
+				b.LocalGet(lRest).I64Const(32).Raw(e.OpI64ShrU).Raw(e.OpI32WrapI64).Call(fLog)
+				b.GlobalGet(gCnt).Raw(e.OpI32WrapI64).Return()
+			})
+		}
 		when(opRec+0, func() { b.Call(fRec0); dead() })
 		when(opRec+1, func() { b.Call(fRec1000); dead() })
 		when(opRec+2, func() { b.Call(fRecV); dead() })
@@ -353,6 +374,70 @@ func buildGuest(peer string, start int) []byte {
 			panic("index plan")
 		}
 	}
+	{ // atomic(sub i32, addr i32) -> i64: executes the atomic instruction `sub` at addr
+		b := e.NewB()
+		for sub := 0; sub < nAtomicSubs; sub++ {
+			b.LocalGet(0).I32Const(int32(sub)).Raw(e.OpI32Eq).If()
+			is64, width := atomicShape(sub)
+			align := uint32(0)
+			for 1<<align < width {
+				align++
+			}
+			v := atomicOperand(sub)
+			val := func() {
+				if is64 {
+					b.I64Const(int64(v))
+				} else {
+					b.I32Const(int32(uint32(v)))
+				}
+			}
+			ret := func() {
+				if !is64 {
+					b.Raw(e.OpI64ExtendI32U)
+				}
+				b.Return()
+			}
+			switch {
+			case sub == 0x00: // memory.atomic.notify(addr, count)
+				b.LocalGet(1).I32Const(1).FE(0x00, 2, 0).Raw(e.OpI64ExtendI32U).Return()
+			case sub == 0x01: // memory.atomic.wait32(addr, expected, timeout)
+				b.LocalGet(1).I32Const(0).I64Const(0).FE(0x01, 2, 0).Raw(e.OpI64ExtendI32U).Return()
+			case sub == 0x02: // memory.atomic.wait64
+				b.LocalGet(1).I64Const(0).I64Const(0).FE(0x02, 3, 0).Raw(e.OpI64ExtendI32U).Return()
+			case sub == 0x03: // atomic.fence
+				b.Raw(0xfe, 0x03, 0x00).I64Const(0).Return()
+			case sub < 0x10: // unassigned
+				b.I64Const(0).Return()
+			case sub <= 0x16: // loads
+				b.LocalGet(1).FE(uint32(sub), align, 0)
+				ret()
+			case sub <= 0x1d: // stores
+				b.LocalGet(1)
+				val()
+				b.FE(uint32(sub), align, 0).I64Const(0).Return()
+			case sub <= 0x47: // rmw add sub and or xor xchg
+				b.LocalGet(1)
+				val()
+				b.FE(uint32(sub), align, 0)
+				ret()
+			default: // cmpxchg(addr, expected 0, replacement)
+				b.LocalGet(1)
+				if is64 {
+					b.I64Const(0)
+				} else {
+					b.I32Const(0)
+				}
+				val()
+				b.FE(uint32(sub), align, 0)
+				ret()
+			}
+			b.End()
+		}
+		b.I64Const(0)
+		if idx := m.AddFunc([]byte{e.I32, e.I32}, []byte{e.I64}, nil, b.Bytes()); idx != fAtomic {
+			panic("index plan")
+		}
+	}
 	m.ExportFunc("run", fRun)
 	m.ExportFunc("run2", fRun2)
 	m.Exports = append(m.Exports,
@@ -368,3 +453,23 @@ func buildGuest(peer string, start int) []byte {
 	m.ModuleName = fmt.Sprintf("guest-peer[%s]-start%d", peer, start)
 	return m.Encode()
 }
+
+// atomicShape: operand type (i64?) and access width in bytes of the 0xfe-prefixed instruction sub.
+func atomicShape(sub int) (is64 bool, width uint32) {
+	switch sub {
+	case 0x00, 0x01:
+		return false, 4
+	case 0x02:
+		return true, 8
+	case 0x03:
+		return false, 0
+	}
+	if sub < 0x10 {
+		return false, 0
+	}
+	// groups of 7: i32, i64, i32 8, i32 16, i64 8, i64 16, i64 32
+	k := (sub - 0x10) % 7
+	return k == 1 || k >= 4, []uint32{4, 8, 1, 2, 1, 2, 4}[k]
+}
+
+func atomicOperand(sub int) uint64 { return 0x0123456789abcdef ^ uint64(sub)*0x0101010101010101 }
